@@ -317,13 +317,20 @@ def r2_normalisation_on_every_arm(ctx):
     frac = ClassModel(ast.parse("class Fraction: pass").body[0])
     problems = []
     try:
-        for probe, want in ((Obj(frac, numerator=4, denominator=1), 4), (Obj(frac, numerator=1, denominator=2), "same"), (3, 3), (1.5, 1.5)):
+        # integral values on both sides of and AT zero (0/1 is falsy: `x or y` idioms lose it), a proper ratio, other numbers
+        for probe, want in ((Obj(frac, numerator=4, denominator=1), 4), (Obj(frac, numerator=0, denominator=1), 0), (Obj(frac, numerator=-3, denominator=1), -3),
+                            (Obj(frac, numerator=1, denominator=2), "same"), (3, 3), (0, 0), (1.5, 1.5)):
             interp = Interp(globals_={"f": lambda x, y, _p=probe: _p})
+            # module-level helpers of numbers.py are interpreted too
+            from ..minipy import Closure
+            for helper in tree.body:
+                if isinstance(helper, P.FUNC) and helper is not norm:
+                    interp.globals.setdefault(helper.name, Closure(helper, {}, interp))
             got = interp.call_function(inner, [0, 0], {})
             if want == "same":
                 if got is not probe:
                     problems.append(f"1/2 becomes {got!r}")
-            elif got != want or isinstance(got, Obj):
+            elif isinstance(got, Obj) or got != want or type(got) is not type(want):
                 problems.append(f"{probe!r} becomes {got!r}, expected {want!r}")
     except (Unsupported, PyRaise) as e:
         raise AnalysisError(f"_normalize_fraction_result not interpretable: {e}")
@@ -453,6 +460,52 @@ def r3_quot_rem_mod_exact(ctx):
             ctx.ob("C20.R3", f"{CORE}::{name}({ta},{tb})::exact", CORE, d.line, ok, "" if ok else f"({name} {ta} {tb}) can have type {sorted(r)}: an inexact intermediate")
 
 
+FLOORISH_OPERATORS = {"operator/floordiv", "operator/mod", "python/divmod", "operator/ifloordiv", "operator/imod", "//", "%"}
+
+
+@rule("C20.R5", floor=4)
+def r5_rounding_modes_of_quot_rem_mod(ctx):
+    """x = y * (quot x y) + (rem x y), rem takes the sign of x and mod the sign of y, for integers,
+    ratios, decimals and floats alike.  Structurally: quot rounds the *exact* quotient (/ x y)
+    towards zero (trunc), mod rounds it down (floor), rem is x - y * (quot x y); none of them uses
+    Python's // or % family, whose rounding depends on the operand type (FT-operator: on
+    decimal.Decimal `//` and `%` truncate towards zero, on every other type they floor), and which
+    refuses mixed decimal/float/ratio operands."""
+    defs = L.top_defs(ctx.lisp(CORE))
+    want = {"quot": ("trunc", {"basilisp.lang.numbers/trunc", "math/trunc"}), "mod": ("floor", {"math/floor", "basilisp.lang.numbers/floor"})}
+    for name in ("quot", "rem", "mod"):
+        d = defs.get(name)
+        if d is None:
+            raise AnalysisError(f"anchor vanished: core.lpy::{name}")
+        params, body = L.fn_arities(d)[0]
+        x, y = (p.val for p in params.items[:2])
+        bad = [f for b in body for f in L.walk(b) if isinstance(f, L.Sym) and f.val in FLOORISH_OPERATORS]
+        ctx.ob("C20.R5", f"{CORE}::{name}::no type-dependent floor-division operator", CORE, d.line, not bad,
+               "" if not bad else f"{name} uses `{bad[0].val}`: Python floors for int/float/Fraction but truncates towards zero for decimal.Decimal, so the sign identity fails for decimals (and mixed decimal/ratio operands raise TypeError)",
+               witness="(mod -5M 3M) must be 1M")
+        if name in want:
+            mode, heads = want[name]
+            rounds = [f for b in body for f in L.walk(b) if L.head(f) in heads | {"math/floor", "math/ceil", "math/trunc", "basilisp.lang.numbers/trunc", "python/round", "python/int"}]
+            def exact_quotient(arg):
+                if arg.text() == f"(/ {x} {y})":
+                    return True
+                if isinstance(arg, L.Sym):  # a let-bound name for the exact quotient
+                    for a in L.ancestors(arg):
+                        if L.head(a) in ("let", "let*") and isinstance(a.items[1], L.Vec):
+                            for nm, init in zip(a.items[1].items[0::2], a.items[1].items[1::2]):
+                                if L.is_sym(nm, arg.val):
+                                    return init.text() == f"(/ {x} {y})"
+                return False
+            ok = len(rounds) == 1 and L.head(rounds[0]) in heads and len(rounds[0].items) == 2 and exact_quotient(rounds[0].items[1])
+            ctx.ob("C20.R5", f"{CORE}::{name}::rounds the exact quotient (/ {x} {y}) with {mode}", CORE, d.line, ok,
+                   "" if ok else f"{name} does not apply exactly one {mode} to the exact quotient (/ {x} {y}) (found {[r.text()[:40] for r in rounds]})")
+    rm = defs["rem"]
+    params, body = L.fn_arities(rm)[0]
+    x, y = (p.val for p in params.items[:2])
+    ok = f"(- {x} (* {y} (quot {x} {y})))" in rm.text()
+    ctx.ob("C20.R5", f"{CORE}::rem::x - y * (quot x y)", CORE, rm.line, ok, "" if ok else "rem is not defined as the remainder of quot: x = y * (quot x y) + (rem x y) no longer holds by construction")
+
+
 CONDITIONAL_HEADS = {"if", "when", "when-not", "and", "or", "cond", "condp", "case", "if-let", "when-let", "if-not", "if-some", "when-some", "fn", "fn*", "loop", "loop*", "lazy-seq", "delay", "future", "try", "while", "for", "doseq", "dotimes", "quote"}
 
 
@@ -555,6 +608,12 @@ def r4_inline_equals_call(ctx):
 
 
 SELFTEST = [
+    {"name": "mod through Python floor division", "file": CORE, "expect": "C20.R5",
+     "old": "  (- num (* div (math/floor (/ num div)))))", "new": "  (- num (* div (operator/floordiv num div))))"},
+    {"name": "quot rounds down instead of towards zero", "file": CORE, "expect": "C20.R5",
+     "old": "  (basilisp.lang.numbers/trunc (/ num div)))", "new": "  (math/floor (/ num div)))"},
+    {"name": "twin: mod names the exact quotient first", "file": CORE, "expect": None,
+     "old": "  (- num (* div (math/floor (/ num div)))))", "new": "  (let [q (/ num div)]\n    (- num (* div (math/floor q)))))"},
     {"name": "fraction arm computes in float", "file": NUM, "expect": "C20.R1",
      "old": "    if isinstance(y, decimal.Decimal):\n        return _to_decimal(x) + y\n    return x + y\n", "new": "    if isinstance(y, decimal.Decimal):\n        return _to_decimal(x) + y\n    return float(x) + y\n"},
     {"name": "decimal arm forgets fraction coercion", "file": NUM, "expect": "C20.R1",
